@@ -171,12 +171,18 @@ def extract_units(unit_names, repo=None, jobs=16):
     facts_dir = os.path.join(WORK, 'facts')
     os.makedirs(facts_dir, exist_ok=True)
     hh = _header_hash(repo)
+    # an overlay unit whose source and headers are byte-identical to the real tree's has the real tree's facts
+    same_headers = repo != base and hh == _header_hash(base)
     tool = open(ENVX + '.srchash').read()
     result = {}
     todo = []
     for u in unit_names:
         src = os.path.join(repo, u)
-        key = _sha(tool, hh, _file_hash(src), ' '.join(units[u]), repo)[:24]
+        key_repo = repo
+        if same_headers and os.path.exists(os.path.join(base, u)) and _file_hash(src) == _file_hash(os.path.join(base, u)):
+            key_repo = base
+            src = os.path.join(base, u)
+        key = _sha(tool, hh, _file_hash(src), ' '.join(units[u]), key_repo)[:24]
         out = os.path.join(facts_dir, key + '.json')
         result[u] = out
         if not os.path.exists(out):
@@ -185,10 +191,11 @@ def extract_units(unit_names, repo=None, jobs=16):
     def run(job):
         u, src, out = job
         tmp = out + '.%d.tmp' % os.getpid()
-        args = [a.replace(base.rstrip('/') + '/', repo.rstrip('/') + '/') if repo != base else a for a in units[u]]
-        cmd = [ENVX, '--root', repo.rstrip('/') + '/', '--out', tmp, src, '--'] + args + \
+        root = base if src.startswith(base.rstrip('/') + '/') else repo
+        args = [a.replace(base.rstrip('/') + '/', root.rstrip('/') + '/') if root != base else a for a in units[u]]
+        cmd = [ENVX, '--root', root.rstrip('/') + '/', '--out', tmp, src, '--'] + args + \
               ['-resource-dir', _resource_dir()]
-        r = subprocess.run(cmd, capture_output=True, text=True, cwd=repo)
+        r = subprocess.run(cmd, capture_output=True, text=True, cwd=root)
         if (r.returncode != 0 or not os.path.exists(tmp)) and '-std=c++20' in cmd:
             # clang 14 + libstdc++ 12 reject a few constructs in C++20 mode that g++ (the real
             # compiler) accepts, e.g. std::pair<std::string, T> with T still incomplete
@@ -216,7 +223,10 @@ def extract_units(unit_names, repo=None, jobs=16):
 
 
 def all_units(repo=None):
-    return sorted(compile_db(repo or REPO).keys())
+    repo = repo or REPO
+    # overlays (seeded variants under .work/) carry only src/, include/ and the CMake files: they reuse the real tree's database
+    base = REPO if os.path.abspath(repo).startswith(os.path.abspath(WORK) + os.sep) else repo
+    return sorted(compile_db(base).keys())
 
 
 def gc_facts(max_files=400):
